@@ -5,8 +5,8 @@ use serde::{Deserialize, Serialize};
 use vh::runner::pick_idx;
 use vh::util::BStr;
 
-use crate::fsio::{mkfifo, path_of};
-use crate::model::{join, Comps, Kind, ROp, Tree, NAME_MAX};
+use crate::check::fsio::{mkfifo, path_of};
+use crate::check::model::{join, Comps, Kind, ROp, Tree, NAME_MAX};
 
 /// A file name: `stem`, padded with '_' up to `len` bytes when `len` is larger.
 /// Sanitised on use: no '/', no NUL, never "." or "..", never empty.
@@ -259,8 +259,8 @@ fn candidates(t: &Tree, want: u8) -> Vec<Comps> {
         5 => {
             // alias paths: <symlink to directory>/<child of the target>
             for (k, n) in &t.nodes {
-                if let crate::model::Node::Symlink(_) = n {
-                    let parsed = crate::model::Parsed { comps: k.clone(), trailing: false, nsep: 0 };
+                if let crate::check::model::Node::Symlink(_) = n {
+                    let parsed = crate::check::model::Parsed { comps: k.clone(), trailing: false, nsep: 0 };
                     if let Ok((c, Kind::Dir)) = t.resolve_comps(&parsed, true) {
                         v.push(k.clone());
                         for (name, _) in t.children(&c).into_iter().take(4) {
